@@ -5,13 +5,22 @@
   `VGen.redactionAlgorithms`, and the `redactionAlgorithm` column of `VGen.roomVersions`).
   Core Lean only.
 
-  The Go function is   json.Unmarshal(text, keepStruct) ; filter Content by type ; json.Marshal.
+  The Go function is   exactFieldsOnly(text, keepStruct) ; json.Unmarshal(·, keepStruct) ;
+  filter Content by type ; json.Marshal.
   Modelled at the level of JSON *values* (`JVal`): the harness compares CanonicalJSON of the
   output, so member order, whitespace and escape spelling of `json.Marshal` do not matter.
   What encoding/json does to the value is modelled (trusted base, validated by correspondence):
 
-  * keys are matched to struct fields after case folding; every matching member is decoded in
-    document order into the same field:
+  * `exactFieldsOnly` (`exactFields` below) reads the text into a `map[string]json.RawMessage` — a
+    non-object other than `null` is an error, of several members with the same key the LAST one
+    stays, values are kept raw (`null` included, nothing is decoded, so an ill-typed earlier
+    duplicate or a number that overflows float64 under an unlisted key is not an error) — and keeps the
+    members whose key is EXACTLY the JSON name of a field of the keep struct: a case variant of a
+    name (`Event_id`, `Sender`, `ſender`) is dropped like any other unlisted key.  The text `null`
+    gives the empty object;
+  * the struct decoding that follows still matches keys to struct fields after case folding (it
+    is encoding/json's), but it only ever sees exact names, each at most once; every matching
+    member is decoded in document order into the same field:
       - `string` field (`type`): a JSON string is stored, `null` leaves the field as it is, any
         other value is an UnmarshalTypeError (decoding goes on, the call returns the error);
       - `map[string]interface{}` field (`content`): an object is merged into the map the field
@@ -19,7 +28,7 @@
         a number literal that overflows float64 anywhere inside is a type error too;
       - `spec.RawJSON` field: `UnmarshalJSON` stores the raw text of the member, `null` included,
         so the last matching member wins and the field is then non-empty (never omitted);
-  * the text `null` for the whole event leaves the zero struct (no error);
+  * the text `null` for the whole event gives the empty object, hence the zero struct (no error);
   * values kept inside `content` travel through `interface{}`: numbers become float64 and are
     re-rendered, strings are sanitised to valid UTF-8, duplicate keys collapse.  The model covers
     exactly the values on which that round trip is the identity (`ifaceOk`: integer literals within
@@ -253,11 +262,19 @@ def redactObj (a : Algo) (kvs : List (Bytes × JVal)) : Except Err JVal :=
       else .ok (.obj (a.fields.flatMap (emitField kvs t.val nc)))
   | _, _ => .error (unmodelled "keep struct without type/content field")
 
-/-- `redactEventJSON` with a given keep struct and content table, on the value the text denotes. -/
+/-- `exactFieldsOnly`: the event restricted to the members whose key is exactly the JSON name of a
+    field of the keep struct; of several members with the same key the last one stays (Go map
+    assignment).  (`json.Marshal` of the Go map sorts the keys; the struct decoding that follows sees
+    every name at most once, so the order is immaterial: the model lists them in field order.) -/
+def exactFields (fs : List Field) (kvs : List (Bytes × JVal)) : List (Bytes × JVal) :=
+  fs.filterMap (fun f => (lookupExact kvs f.name).map (fun v => (f.name, v)))
+
+/-- `redactEventJSON` with a given keep struct and content table, on the value the text denotes:
+    `exactFieldsOnly`, then the struct decoding / content filter / marshalling of `redactObj`. -/
 def redactWith (a : Algo) (j : JVal) : Except Err JVal :=
   match j with
-  | .null => redactObj a []
-  | .obj kvs => redactObj a kvs
+  | .null => redactObj a (exactFields a.fields [])
+  | .obj kvs => redactObj a (exactFields a.fields kvs)
   | _ => .error (.other "unmarshal")
 
 /-- `IRoomVersion.RedactEventJSON` -/
